@@ -186,6 +186,24 @@ def r3_cache_filled_from_current_tables(ctx):
             ctx.ob("C18.R3", f"{MF}::MultiFunction.{m.name}::{P.un(s)} moves with a cache reset", MF, s.lineno, emptied,
                    "" if emptied else f"`{P.un(s)}` in {m.name} moves the hierarchy snapshot while the cached answers stay: an answer found under the previous hierarchy is served as fresh after derive/underive",
                    witness="(derive ::a ::p) (mm ::a) caches p's method; (underive ::a ::p) then one call with another dispatch value; (mm ::a) still runs p's method")
+            if not emptied:
+                continue
+            # publication order: readers compare the snapshot and read the cache without the lock
+            # (R2), so "snapshot is current" has to imply "cache already emptied" at every instant:
+            # the emptying store comes first on every path to the snapshot store
+            lock_free_test = any(
+                not P.under_lock(n, LOCK, stop=m2)
+                for m2 in P.all_methods(cls) for n in ast.walk(m2)
+                if isinstance(n, ast.Compare) and "_cached_hierarchy" in P.un(n) and isinstance(P.enclosing_func(n), type(m2)) and P.enclosing_func(n) is m2)
+            if not lock_free_test:
+                continue
+            g = CFG(m)
+            sn = [nd for nd in g.nodes if nd.kind == "stmt" and nd.ast is s]
+            rs = [nd for nd in g.nodes if nd.kind == "stmt" and nd.ast is not None and any(s2 is nd.ast and a2 == "_cache" and getattr(s2, "value", None) is not None and P.un(s2.value) in _RESETS for s2, a2 in P.self_attr_stores(m))]
+            ok = bool(sn) and all(g.dominated(x, rs, follow_exc=False) for x in sn)
+            ctx.ob("C18.R3", f"{MF}::MultiFunction.{m.name}::the cache is emptied before the snapshot is moved", MF, s.lineno, ok,
+                   "" if ok else f"{m.name} stores `{P.un(s)}` before it empties the cache: get_method compares the snapshot and reads the cache without the lock, so a call between the two stores sees 'hierarchy unchanged' and is served an answer found under the previous hierarchy",
+                   witness="thread A is inside _reset_cache after underive; thread B calls (mm ::child) between A's two stores and runs the parent's method although underive had returned")
     # the reset stores the cache too: every caller of a function that stores to self._cache without
     # taking the lock itself must hold the lock -- otherwise a reset can slip in between a locked
     # search against the old hierarchy and its store, and the stale answer lands in the fresh cache
@@ -923,6 +941,8 @@ SELFTEST = [
      "old": "        self._cache = self._methods\n        self._cached_hierarchy = self._hierarchy.deref()\n", "new": "        self._cache = self._methods\n"},
     {"name": "cache keeps old entries on reset", "file": MF, "expect": "C18.R3",
      "old": "        self._cache = self._methods\n", "new": "        self._cache = self._cache.update(self._methods)\n"},
+    {"name": "the snapshot is moved before the cache is emptied", "file": MF, "expect": "C18.R3",
+     "old": "        self._cache = self._methods\n        self._cached_hierarchy = self._hierarchy.deref()\n", "new": "        self._cached_hierarchy = self._hierarchy.deref()\n        self._cache = self._methods\n"},
     {"name": "twin: one dereference per search, handed down to _is_a", "expect": None, "edits": _SNAPSHOT_EDITS},
     {"name": "the search moves the hierarchy snapshot and keeps the cached answers", "expect": "C18.R3",
      "edits": _SNAPSHOT_EDITS + [{"file": MF, "old": "                self._cache = self._cache.assoc(key, best_method)\n",
